@@ -179,12 +179,31 @@ def splice(text, func, newfunc):
     return '\n'.join(lines[:start] + new + lines[end:])
 
 
+SNAP = [None]
+
+
+def snapshot():
+    """one stable copy of the framework for the whole campaign (so that /verif may be edited meanwhile)"""
+    d = tempfile.mkdtemp(prefix='xdocastsnap-')
+    for attempt in range(5):
+        try:
+            shutil.copytree(HERE, os.path.join(d, 'verif'), symlinks=True,
+                            ignore=shutil.ignore_patterns('.git', 'replays', '__pycache__', 'seeded'))
+            break
+        except shutil.Error:
+            shutil.rmtree(os.path.join(d, 'verif'), ignore_errors=True)
+            import time
+            time.sleep(5)
+    SNAP[0] = os.path.join(d, 'verif')
+    return d
+
+
 def run_one(job):
     idx, props, relfile, newtext, desc, tier = job
     d = tempfile.mkdtemp(prefix='xdocastmut-')
     try:
         vc = os.path.join(d, 'verif')
-        shutil.copytree(HERE, vc, symlinks=True, ignore=shutil.ignore_patterns('.git', 'replays', '__pycache__', 'seeded'))
+        shutil.copytree(SNAP[0], vc, symlinks=True)
         src = os.path.join(d, 'mut', 'src')
         shutil.copytree('/repo/src', src)
         with open(os.path.join(src, 'xdoctest', relfile), 'w', encoding='utf8') as f:
@@ -207,6 +226,8 @@ def run_one(job):
         return idx, desc, 'caught' if caught else ('error' if any(r['rc'] not in (0, 1) for r in res.values()) else 'survived'), res
     except subprocess.TimeoutExpired:
         return idx, desc, 'timeout', {}
+    except Exception as ex:
+        return idx, desc, 'error', {'exception': repr(ex)[:300]}
     finally:
         shutil.rmtree(d, ignore_errors=True)
 
@@ -268,13 +289,17 @@ def main(argv):
     print('%d mutants of %s (%s)' % (len(jobsl), relfile, ','.join(f.name for f in funcs)), flush=True)
     tally = {}
     outf = open(outp, 'a') if outp else None
-    with ThreadPoolExecutor(jobs) as ex:
-        for idx, desc, verdict, res in ex.map(run_one, jobsl):
-            tally[verdict] = tally.get(verdict, 0) + 1
-            print('%4d %-9s %s' % (idx, verdict, desc), flush=True)
-            if outf:
-                outf.write(json.dumps({'i': idx, 'desc': desc, 'verdict': verdict, 'res': res}) + '\n')
-                outf.flush()
+    snapdir = snapshot()
+    try:
+        with ThreadPoolExecutor(jobs) as ex:
+            for idx, desc, verdict, res in ex.map(run_one, jobsl):
+                tally[verdict] = tally.get(verdict, 0) + 1
+                print('%4d %-9s %s' % (idx, verdict, desc), flush=True)
+                if outf:
+                    outf.write(json.dumps({'i': idx, 'desc': desc, 'verdict': verdict, 'res': res}) + '\n')
+                    outf.flush()
+    finally:
+        shutil.rmtree(snapdir, ignore_errors=True)
     print('summary: ' + ', '.join('%s=%d' % kv for kv in sorted(tally.items())))
     return 0
 
